@@ -652,3 +652,6 @@ func Catch(f func()) (p interface{}) {
 	f()
 	return nil
 }
+
+// NewProbeCtx returns a stand-alone context (development probes).
+func NewProbeCtx(id, tier string) *Ctx { return newCtx(id, tier, 0) }
